@@ -4,14 +4,17 @@
   runs.
 
   Main results (no cleanup, any criterion, any capacity / `append` / `symlink` per run):
-  * `multi_run_stream_B_partial`   the stream theorem for multi-run histories; for
-      `timestampsDirect` under `AppendGuard` (needed only by runs with `append`, finding D22);
-  * `multi_run_stream_B_numbersDirect`, `multi_run_stream_B_tsd_no_append`  the unguarded cases;
-  * `multi_run_stream_B_full_statement` (a `def`), `tsd_append_restart_violation_witness`,
-      `multi_run_stream_B_full_statement_false`  the unguarded statement and its refutation;
+  * `multi_run_stream_B`   the stream theorem for multi-run histories, no guard (since the
+      `fix:` of finding D22: an appending `timestampsDirect` run continues the newest file,
+      `appendTarget_eq`, `appendTarget_of_last`);
+  * `multi_run_stream_B_numbersDirect`, `multi_run_stream_B_timestampsDirect`,
+      `multi_run_stream_B_tsd_no_append`  its instances;
+  * `multi_run_stream_B_partial`  the guarded form (`AppendGuard`) that was provable before the
+      repair; `tsd_append_restart_former_witness`  the history that refuted the unguarded
+      statement then, and behaves well now;
   * `init_inv2`, `restart_init_B`, `restart_write_B`  the shape of a restart;
-  * `fresh_names_B`  no existing file is ever reused, overwritten or truncated (no guard);
-  * `guardB_sound`  a decidable sufficient check for the guard.
+  * `fresh_names_B`  no existing file is ever reused, overwritten or truncated;
+  * `guardB_sound`  a decidable sufficient check for the former guard.
 -/
 import FlexiVerif.Lemmas.FlwAbs
 import FlexiVerif.Lemmas.FlwRefineB
@@ -248,7 +251,151 @@ theorem latestStamp_of_last {d pre : List (FName × File)} {k : Nat} {r : Option
         simp only [Option.some.injEq, Infix.ts.injEq] at hifx
         rw [hifx.1]
 
-/-- the newest stamp has no `.restart-N` sibling (guard against finding D22) -/
+/-! ### the file an appending `timestampsDirect` run continues (`appendTarget`) -/
+
+theorem foldl_max_spec (ss : List Nat) : ∀ s : Nat,
+    s ≤ ss.foldl max s ∧ (∀ x ∈ ss, x ≤ ss.foldl max s) ∧
+    (ss.foldl max s = s ∨ ss.foldl max s ∈ ss) := by
+  induction ss with
+  | nil => intro s; simp
+  | cons y ys ih =>
+    intro s
+    obtain ⟨h1, h2, h3⟩ := ih (max s y)
+    simp only [List.foldl_cons, List.mem_cons]
+    refine ⟨by omega, ?_, ?_⟩
+    · intro x hx
+      rcases hx with rfl | hx
+      · omega
+      · exact h2 x hx
+    · rcases h3 with h3 | h3
+      · rw [h3]
+        by_cases hsy : y ≤ s
+        · left; omega
+        · right; left; omega
+      · exact Or.inr (Or.inr h3)
+
+/-- the restart numbers of the plain files with stamp `k` -/
+def plainSiblings (d : List (FName × File)) (k : Nat) : List Nat :=
+  d.filterMap (fun e => match e.1.ifx, e.1.gz with
+    | some (.ts k' (some r)), false => if k' = k then some r else none
+    | _, _ => none)
+
+theorem mem_plainSiblings (d : List (FName × File)) (k x : Nat) :
+    x ∈ plainSiblings d k ↔ ∃ e ∈ d, e.1.ifx = some (.ts k (some x)) ∧ e.1.gz = false := by
+  unfold plainSiblings
+  rw [List.mem_filterMap]
+  constructor
+  · rintro ⟨e, he, h⟩
+    refine ⟨e, he, ?_⟩
+    obtain ⟨⟨ifx, gz⟩, f⟩ := e
+    cases ifx with
+    | none => simp at h
+    | some i =>
+      cases i with
+      | ts k' r =>
+        cases r with
+        | none => simp at h
+        | some r =>
+          cases gz with
+          | true => simp at h
+          | false =>
+            simp only at h
+            split at h
+            · rename_i hk; cases h; subst hk; exact ⟨rfl, rfl⟩
+            · cases h
+      | _ => simp at h
+  · rintro ⟨e, he, h1, h2⟩
+    refine ⟨e, he, ?_⟩
+    obtain ⟨⟨ifx, gz⟩, f⟩ := e
+    simp only at h1 h2
+    subst h1 h2
+    simp
+
+theorem appendTarget_def (d : List (FName × File)) (k : Nat) :
+    appendTarget d k = (match plainSiblings d k with
+      | s :: ss => .ts k (some (ss.foldl max s))
+      | [] => if Dir.has d ⟨some (.ts k none), false⟩ then .ts k none else collisionFree d k) := rfl
+
+/-- **the file an appending `timestampsDirect` run continues**: if the plain file `ts k r0` exists
+    and no plain file with stamp `k` has a higher restart number, it is `ts k r0` — the plain
+    file with the largest key among the plain files with stamp `k` -/
+theorem appendTarget_eq (d : List (FName × File)) (k : Nat) (r0 : Option Nat) (f : File)
+    (hmem : (⟨some (.ts k r0), false⟩, f) ∈ d)
+    (hmax : ∀ e ∈ d, e.1.gz = false → ∀ r, e.1.ifx = some (.ts k (some r)) →
+      ∃ r1, r0 = some r1 ∧ r ≤ r1) :
+    appendTarget d k = .ts k r0 := by
+  rw [appendTarget_def]
+  have hsib : ∀ x ∈ plainSiblings d k, ∃ r1, r0 = some r1 ∧ x ≤ r1 := by
+    intro x hx
+    obtain ⟨e, he, h1, h2⟩ := (mem_plainSiblings d k x).1 hx
+    exact hmax e he h2 x h1
+  cases r0 with
+  | none =>
+    have hnil : plainSiblings d k = [] := by
+      cases hs : plainSiblings d k with
+      | nil => rfl
+      | cons s ss =>
+        obtain ⟨r1, h, _⟩ := hsib s (by rw [hs]; simp)
+        cases h
+    rw [hnil]
+    have hhas : Dir.has d ⟨some (.ts k none), false⟩ = true := by
+      unfold Dir.has
+      cases hg : Dir.get d ⟨some (.ts k none), false⟩ with
+      | some v => rfl
+      | none =>
+        exfalso
+        exact (FV.FlwA.get_eq_none_iff d _).1 hg _ hmem rfl
+    simp only [hhas, if_true]
+  | some r1 =>
+    have hin : r1 ∈ plainSiblings d k := (mem_plainSiblings d k r1).2 ⟨_, hmem, rfl, rfl⟩
+    cases hs : plainSiblings d k with
+    | nil => rw [hs] at hin; cases hin
+    | cons s ss =>
+      simp only
+      obtain ⟨g1, g2, g3⟩ := foldl_max_spec ss s
+      have hmemmax : ss.foldl max s ∈ plainSiblings d k := by
+        rw [hs]
+        rcases g3 with g3 | g3
+        · rw [g3]; simp
+        · simp [g3]
+      obtain ⟨r1', h, hle⟩ := hsib _ hmemmax
+      cases h
+      have hge : r1 ≤ ss.foldl max s := by
+        rw [hs] at hin
+        rcases List.mem_cons.1 hin with h | h
+        · omega
+        · exact g2 _ h
+      congr 2
+      omega
+
+/-- under the guard (the newest stamp has no `.restart-N` sibling) the file continued is the
+    base file, as before the `fix:` -/
+theorem appendTarget_base (d : List (FName × File)) (k : Nat) (f : File)
+    (hmem : (⟨some (.ts k none), false⟩, f) ∈ d)
+    (hno : ∀ e ∈ d, ∀ r, e.1.ifx ≠ some (.ts k (some r))) :
+    appendTarget d k = .ts k none :=
+  appendTarget_eq d k none f hmem (fun e he _ r h => absurd h (hno e he r))
+
+/-- in a described directory the file continued is the newest file -/
+theorem appendTarget_of_last {d pre : List (FName × File)} {k : Nat} {r : Option Nat} {f : File}
+    (hd : DirIs d (pre ++ [(⟨some (.ts k r), false⟩, f)])) : appendTarget d k = .ts k r := by
+  refine appendTarget_eq d k r f hd.mem_last ?_
+  intro e he _ r' hifx
+  rcases List.mem_append.1 (hd.1.subset he) with hp | hp
+  · have := hd.lt_last e hp
+    cases r with
+    | none => simp [nkey, hifx, Infix.key, keyLt] at this
+    | some r1 =>
+      refine ⟨r1, rfl, ?_⟩
+      simp [nkey, hifx, Infix.key, keyLt] at this
+      omega
+  · simp only [List.mem_singleton] at hp
+    subst hp
+    simp only [Option.some.injEq, Infix.ts.injEq, true_and] at hifx
+    exact ⟨r', hifx, Nat.le_refl _⟩
+
+/-- the newest stamp has no `.restart-N` sibling (the guard that was needed before the `fix:` of
+    finding D22; kept for the statements that still carry it) -/
 def NewestIsBase (d : List (FName × File)) : Prop :=
   ∀ e ∈ d, ∀ k r, e.1.ifx = some (.ts k (some r)) → ∃ k', latestStamp d = some k' ∧ k < k'
 
@@ -270,7 +417,8 @@ theorem DirIs.eq_nil {d : List (FName × File)} (h : DirIs d []) : d = [] := h.1
 def initPre (s : St) (nm : Naming) (now : Nat) : Infix × Nat × Nat :=
   match nm with
   | .timestampsDirect =>
-    if s.cfg.append then (.ts ((latestStamp s.dir).getD now) none, 0, (latestStamp s.dir).getD now)
+    if s.cfg.append then
+      (appendTarget s.dir ((latestStamp s.dir).getD now), 0, (latestStamp s.dir).getD now)
     else (collisionFree s.dir now, 0, now)
   | _ =>
     match highestIndex s.dir with
@@ -431,14 +579,14 @@ theorem eq_nil_or_append_singleton {α : Type} (l : List α) :
 
 /-- `initState` on a described directory: the invariant of the single run is established, all
     earlier content is kept (`InitShape`: the newest file is continued, or a new file above all
-    existing ones is created). For `timestampsDirect` with `append` the newest stamp must not
-    have restart siblings (finding D22). -/
+    existing ones is created). For `timestampsDirect` with `append` the file continued is the
+    newest one also if it is a `.restart-N` sibling (`appendTarget_of_last`; the repaired
+    behaviour, finding D22). -/
 theorem init_inv2 (s : St) (r : RotCfg) (now lo : Nat) (W : List Nat) (L : List (FName × File))
     (hrot : s.cfg.rot = some r)
     (hB : r.naming = .numbersDirect ∨ r.naming = .timestampsDirect) (hc : r.cleanup = none)
     (hd : DirIs s.dir L) (hW : (L.map (·.2.data)).flatten = W) (hL : LastShape r.naming lo L)
-    (hlo : lo ≤ now)
-    (hg : r.naming = .timestampsDirect → s.cfg.append = true → NewestIsBase s.dir) :
+    (hlo : lo ≤ now) :
     InitOK s r now W L := by
   rcases eq_nil_or_append_singleton L with hnil | ⟨pre, ⟨n, f⟩, hLe⟩
   · -- empty directory: a first file
@@ -483,12 +631,11 @@ theorem init_inv2 (s : St) (r : RotCfg) (now lo : Nat) (W : List Nat) (L : List 
       subst hn
       cases happ : s.cfg.append with
       | true =>
-        have hr0 : r0 = none := (hg hnm happ).last_base hd
-        subst hr0
         have hls := latestStamp_of_last hd
-        refine init_old s r now W _ hrot (Or.inr hnm) hc hd hW (.ts k none) 0 k ?_ pre f rfl happ ?_
-        · rw [hnm]; simp [initPre, hls, happ]
-        · intro n' sz cr; rw [hnm]; exact ⟨k, none, rfl, Nat.le_trans hk hlo⟩
+        have hat := appendTarget_of_last hd
+        refine init_old s r now W _ hrot (Or.inr hnm) hc hd hW (.ts k r0) 0 k ?_ pre f rfl happ ?_
+        · rw [hnm]; simp [initPre, hls, hat, happ]
+        · intro n' sz cr; rw [hnm]; exact ⟨k, r0, rfl, Nat.le_trans hk hlo⟩
       | false =>
         obtain ⟨r', hcf, hkey⟩ := collisionFree_key hd now k r0 f (by simp) (Nat.le_trans hk hlo)
         refine init_new s r now W _ hrot (Or.inr hnm) hc hd hW (.ts now r') 0 now ?_ rfl
@@ -557,9 +704,7 @@ theorem step_inv2 {r : RotCfg}
     (s : St) (W : List Nat) (lo : Nat) (op : Op) (now : Nat) (hI : Inv2 r lo s W)
     (hop : op.plain = true ∨ ∃ c, op = .restart c ∧ c.rot = some r)
     (hlo : op.usesClock = true → lo ≤ now)
-    (hq : isRestart op = true → Quiet s)
-    (hg : r.naming = .timestampsDirect → ∀ b, op = .write b → s.act = none →
-      s.cfg.append = true → NewestIsBase s.dir) :
+    (hq : isRestart op = true → Quiet s) :
     Inv2 r (if op.usesClock = true then now else lo) (step s op now noFaults).1 (W ++ opBytes op) ∧
     (quiesces op = true → Quiet (step s op now noFaults).1) := by
   obtain ⟨hrot, hI⟩ := hI
@@ -577,7 +722,7 @@ theorem step_inv2 {r : RotCfg}
       rw [hact] at hI
       obtain ⟨L, hd, hW, hL⟩ := hI
       obtain ⟨s0, act0, a0, i1, i2, i3, _, i4, i5, i6, _⟩ :=
-        init_inv2 s r now lo W L hrot hB hc hd hW hL hlo' (fun hnm => hg hnm b rfl hact)
+        init_inv2 s r now lo W L hrot hB hc hd hW hL hlo'
       have j1 : (initState s now noFaults).2 = true := by rw [i1]
       have j2 : (initState s now noFaults).1 = s0 := by rw [i1]
       rw [writeBuffer_none s act0 b now noFaults hact j1 (by rw [j2]; exact i3), j2]
@@ -673,8 +818,10 @@ theorem step_inv2 {r : RotCfg}
 
 /-! ### histories -/
 
-/-- guard against finding D22: whenever a run with `append` initialises (first write after a
-    restart), the newest stamp in the directory has no `.restart-N` sibling -/
+/-- the guard that was needed before the `fix:` of finding D22 (no longer needed by
+    `multi_run_stream_B`; kept for `multi_run_stream_B_partial`): whenever a run with `append`
+    initialises (first write after a restart), the newest stamp in the directory has no
+    `.restart-N` sibling -/
 def GuardFrom (s : St) (ops : List (Op × Nat × Faults)) : Prop :=
   ∀ pre b now fl post, ops = pre ++ (Op.write b, now, fl) :: post →
     (runOps s pre).act = none → (runOps s pre).cfg.append = true →
@@ -694,23 +841,19 @@ theorem run_inv2 {r : RotCfg}
       (∀ o ∈ ops, o.1.usesClock = true → lo ≤ o.2.1) → Monotone ops →
       flushedBeforeRestart ops = true →
       (∀ o rest, ops = o :: rest → isRestart o.1 = true → Quiet s) →
-      (r.naming = .timestampsDirect → GuardFrom s ops) →
       ∃ lo', Inv2 r lo' (runOps s ops) (W ++ written ops) := by
   intro ops
   induction ops with
-  | nil => intro lo s W hI _ _ _ _ _ _; exact ⟨lo, by simpa [written, records, runOps] using hI⟩
+  | nil => intro lo s W hI _ _ _ _ _; exact ⟨lo, by simpa [written, records, runOps] using hI⟩
   | cons o ops ih =>
-    intro lo s W hI hp hlo hm hf hq hg
+    intro lo s W hI hp hlo hm hf hq
     obtain ⟨hm1, hm2⟩ := monotone_tail hm
     obtain ⟨hp1, hp2⟩ := hp o (by simp)
     have hstep := step_inv2 hB hc s W lo o.1 o.2.1 hI hp1 (hlo o (by simp)) (hq o ops rfl)
-      (fun hnm b hb hact happ => by
-        have := hg hnm [] b o.2.1 o.2.2 ops (by rw [← hb]; rfl)
-        exact this hact happ)
     have e1 : runOps s (o :: ops) = runOps (step s o.1 o.2.1 noFaults).1 ops := by
       rw [← hp2]; rfl
     rw [e1, written_cons, ← List.append_assoc]
-    refine ih _ _ _ hstep.1 (fun o' ho' => hp o' (by simp [ho'])) ?_ hm1 ?_ ?_ ?_
+    refine ih _ _ _ hstep.1 (fun o' ho' => hp o' (by simp [ho'])) ?_ hm1 ?_ ?_
     · intro o' ho' hu'
       by_cases hu : o.1.usesClock = true
       · rw [if_pos hu]; exact hm2 hu o' ho' hu'
@@ -726,12 +869,6 @@ theorem run_inv2 {r : RotCfg}
       rcases hf.1 with h | h
       · rw [hr] at h; cases h
       · exact hstep.2 h
-    · intro hnm pre b now fl post hops
-      have := hg hnm (o :: pre) b now fl post (by rw [hops]; rfl)
-      have e2 : runOps s (o :: pre) = runOps (step s o.1 o.2.1 noFaults).1 pre := by
-        rw [← hp2]; rfl
-      rw [e2] at this
-      exact this
 
 theorem dirIs_nil : DirIs [] [] :=
   ⟨List.Perm.nil, List.Pairwise.nil, fun n hn => by cases hn⟩
@@ -762,37 +899,41 @@ theorem Inv2.view {r : RotCfg} {lo : Nat} {s : St} {W : List Nat} (h : Inv2 r lo
 theorem viewFiles_inactive (s : St) (h : s.act = none) : viewFiles s = parts s.dir := by
   unfold viewFiles; rw [h]
 
-/-- the full statement (false for `timestampsDirect` with `append`, see
-    `tsd_append_restart_violation_witness`) -/
-def multi_run_stream_B_full_statement : Prop :=
-  ∀ (cfg : Cfg), CfgMB cfg → ∀ (ops : List (Op × Nat × Faults)), MultiRun cfg.rot ops →
-    (viewFiles (runOps (init cfg []) ops)).flatten = written ops
-
-/-- **C06, direct namings.** Every record of every run is on disk exactly once, in logging
-    order, whatever the sequence of runs. What is missing for the full statement: for
-    `timestampsDirect` the runs with `append` need `AppendGuard` (when such a run initialises, the
-    newest stamp has no `.restart-N` sibling); without it the statement is false
-    (`tsd_append_restart_violation_witness`, finding D22). `numbersDirect` needs no guard
-    (`multi_run_stream_B_numbersDirect`), nor do `timestampsDirect` runs without `append`. -/
-theorem multi_run_stream_B_partial (cfg : Cfg) (hc : CfgMB cfg) (ops : List (Op × Nat × Faults))
-    (hm : MultiRun cfg.rot ops)
-    (hg : (∃ r, cfg.rot = some r ∧ r.naming = .timestampsDirect) → AppendGuard cfg ops) :
+/-- **C06, direct namings — the full statement.** Every record of every run is on disk exactly
+    once, in logging order, whatever the sequence of runs, `append` on or off per run; no guard
+    (since the `fix:` of finding D22 an appending `timestampsDirect` run continues the newest
+    file of the newest stamp, `appendTarget_of_last`). -/
+theorem multi_run_stream_B (cfg : Cfg) (hc : CfgMB cfg) (ops : List (Op × Nat × Faults))
+    (hm : MultiRun cfg.rot ops) :
     (viewFiles (runOps (init cfg []) ops)).flatten = written ops := by
   obtain ⟨hcl, r, hrot, hB⟩ := hc
   obtain ⟨hp, hmono, hf⟩ := hm
   rw [hrot] at hp
   obtain ⟨lo, hI⟩ := run_inv2 hB (hcl r hrot) ops 0 (init cfg []) [] (inv2_init cfg r hrot) hp
     (fun _ _ _ => Nat.zero_le _) hmono hf (fun _ _ _ _ act h => by cases h)
-    (fun hnm => hg ⟨r, hrot, hnm⟩)
   simpa using hI.view
+
+/-- the guarded form that was provable before the `fix:` of finding D22 (the hypothesis
+    `AppendGuard` is no longer used: `multi_run_stream_B`) -/
+theorem multi_run_stream_B_partial (cfg : Cfg) (hc : CfgMB cfg) (ops : List (Op × Nat × Faults))
+    (hm : MultiRun cfg.rot ops)
+    (_hg : (∃ r, cfg.rot = some r ∧ r.naming = .timestampsDirect) → AppendGuard cfg ops) :
+    (viewFiles (runOps (init cfg []) ops)).flatten = written ops :=
+  multi_run_stream_B cfg hc ops hm
 
 /-- `numbersDirect`: the full statement -/
 theorem multi_run_stream_B_numbersDirect (cfg : Cfg) (hn : NoCleanup cfg) (r : RotCfg)
     (hrot : cfg.rot = some r) (hnm : r.naming = .numbersDirect)
     (ops : List (Op × Nat × Faults)) (hm : MultiRun cfg.rot ops) :
     (viewFiles (runOps (init cfg []) ops)).flatten = written ops :=
-  multi_run_stream_B_partial cfg ⟨hn, r, hrot, Or.inl hnm⟩ ops hm
-    (by rintro ⟨r', h1, h2⟩; rw [hrot] at h1; cases h1; rw [hnm] at h2; cases h2)
+  multi_run_stream_B cfg ⟨hn, r, hrot, Or.inl hnm⟩ ops hm
+
+/-- `timestampsDirect`: the full statement, `append` on or off per run -/
+theorem multi_run_stream_B_timestampsDirect (cfg : Cfg) (hn : NoCleanup cfg) (r : RotCfg)
+    (hrot : cfg.rot = some r) (hnm : r.naming = .timestampsDirect)
+    (ops : List (Op × Nat × Faults)) (hm : MultiRun cfg.rot ops) :
+    (viewFiles (runOps (init cfg []) ops)).flatten = written ops :=
+  multi_run_stream_B cfg ⟨hn, r, hrot, Or.inr hnm⟩ ops hm
 
 /-! ### no existing file is ever reused, overwritten or truncated -/
 
@@ -1082,7 +1223,6 @@ theorem Inv2.hw_init {r : RotCfg} {lo : Nat} {s : St} {W : List Nat} (h : Inv2 r
   obtain ⟨L, hd, hW, hL⟩ := hI
   obtain ⟨s0, act0, a0, i1, _, i3, _, i4, i5, _, _⟩ :=
     init_inv2 s r now now W L hrot hB hc hd hW hL (Nat.le_refl _)
-      (fun h' => by rw [hnm] at h'; cases h')
   rw [i1] at hact0' ⊢
   simp only at hact0' ⊢
   rw [i3] at hact0'
@@ -1150,7 +1290,6 @@ theorem fresh_names_B (cfg : Cfg) (hc : CfgMB cfg) (ops : List (Op × Nat × Fau
   · obtain ⟨lo, hI⟩ := run_inv2 (Or.inl hnm) (hcl r hrot) pre 0 (init cfg []) []
       (inv2_init cfg r hrot) hppre (fun _ _ _ => Nat.zero_le _) (monotone_prefix hmono)
       (flushed_prefix _ _ hf) (fun _ _ _ _ act h => by cases h)
-      (fun h => by rw [hnm] at h; cases h)
     exact (step_ext (Or.inl hnm) (hcl r hrot) _ o.1 o.2.1 hI.1 hpo.1 hI.hw
       (fun hact => hI.hw_init (Or.inl hnm) (hcl r hrot) o.2.1 hact)).2.1
   · have hr := run_rot_tD hnm (hcl r hrot) pre (init cfg []) hrot hppre
@@ -1163,14 +1302,13 @@ theorem fresh_names_B (cfg : Cfg) (hc : CfgMB cfg) (ops : List (Op × Nat × Fau
     buffered: the single-run invariant is re-established with the same content `W`; with
     `append` the directory is untouched and the newest file (the old handle) is continued;
     without `append` a new empty file is created whose name did not exist before and whose key
-    is above all existing keys. (`timestampsDirect` with `append`: under the D22 guard.) -/
+    is above all existing keys. -/
 theorem restart_init_B {r : RotCfg}
     (hB : r.naming = .numbersDirect ∨ r.naming = .timestampsDirect) (hc : r.cleanup = none)
     (s : St) (act : Active) (a : Abs) (lo : Nat) (W : List Nat) (c : Cfg) (t now : Nat)
     (hA : ActInv s.cfg.cap s.dir act a)
     (hN : NamingInv r.naming lo act) (hW : (a.closed ++ [a.cur]).flatten = W)
-    (hp : act.pending = []) (hcrot : c.rot = some r) (hlo : lo ≤ now)
-    (hg : r.naming = .timestampsDirect → c.append = true → NewestIsBase s.dir) :
+    (hp : act.pending = []) (hcrot : c.rot = some r) (hlo : lo ≤ now) :
     ∃ s0 act0 a0, initState (step s (.restart c) t noFaults).1 now noFaults = (s0, true) ∧
       s0.cfg = c ∧ s0.act = some act0 ∧ act0.pending = [] ∧
       ActInv c.cap s0.dir act0 a0 ∧ NamingInv r.naming now act0 ∧
@@ -1189,7 +1327,7 @@ theorem restart_init_B {r : RotCfg}
   rw [hs1]
   obtain ⟨s0, act0, a0, i1, i2, i3, i3', i4, i5, i6, i7⟩ :=
     init_inv2 { s with cfg := c, act := none } r now lo W _ hcrot hB hc hd hW'
-      (lastShape_of_handle hN.shape) hlo hg
+      (lastShape_of_handle hN.shape) hlo
   refine ⟨s0, act0, a0, i1, i2, i3, i3', i4, i5, i6, ?_, ?_⟩
   · intro happ
     rcases i7 with ⟨_, h2, pre', f', h3⟩ | ⟨h1, _⟩
@@ -1212,16 +1350,15 @@ theorem restart_init_B {r : RotCfg}
 theorem restart_write_B {r : RotCfg}
     (hB : r.naming = .numbersDirect ∨ r.naming = .timestampsDirect) (hc : r.cleanup = none)
     (s : St) (lo : Nat) (W : List Nat) (c : Cfg) (t now : Nat) (b : List Nat)
-    (hI : Inv2 r lo s W) (hq : Quiet s) (hcrot : c.rot = some r) (hlo : lo ≤ now)
-    (hg : r.naming = .timestampsDirect → c.append = true → NewestIsBase s.dir) :
+    (hI : Inv2 r lo s W) (hq : Quiet s) (hcrot : c.rot = some r) (hlo : lo ≤ now) :
     Inv2 r now (step (step s (.restart c) t noFaults).1 (.write b) now noFaults).1 (W ++ b) ∧
     (viewFiles (step (step s (.restart c) t noFaults).1 (.write b) now noFaults).1).flatten =
       W ++ b := by
   have h1 := (step_inv2 hB hc s W lo (.restart c) t hI (Or.inr ⟨c, rfl, hcrot⟩)
-    (fun h => by cases h) (fun _ => hq) (fun _ b' h => by cases h)).1
+    (fun h => by cases h) (fun _ => hq)).1
   simp only [Op.usesClock, Bool.false_eq_true, if_false, opBytes, List.append_nil] at h1
   have h2 := (step_inv2 hB hc _ W lo (.write b) now h1 (Or.inl rfl) (fun _ => hlo)
-    (fun h => by cases h) (fun hnm b' _ _ happ => hg hnm happ)).1
+    (fun h => by cases h)).1
   simp only [Op.usesClock, if_true, opBytes] at h2
   exact ⟨h2, h2.view⟩
 
@@ -1308,23 +1445,15 @@ theorem run_no_append_tD {r : RotCfg} (hnm : r.naming = .timestampsDirect) (hc :
     · rw [x3 hpl]; exact happ
     · rw [hc']; exact hna o (by simp) c hc'
 
-/-- `timestampsDirect`, no run appends: the full statement, no guard -/
+/-- `timestampsDirect`, no run appends (a special case of `multi_run_stream_B_timestampsDirect`) -/
 theorem multi_run_stream_B_tsd_no_append (cfg : Cfg) (hn : NoCleanup cfg) (r : RotCfg)
-    (hrot : cfg.rot = some r) (hnm : r.naming = .timestampsDirect) (happ : cfg.append = false)
+    (hrot : cfg.rot = some r) (hnm : r.naming = .timestampsDirect) (_happ : cfg.append = false)
     (ops : List (Op × Nat × Faults)) (hm : MultiRun cfg.rot ops)
-    (hna : ∀ o ∈ ops, ∀ c, o.1 = .restart c → c.append = false) :
-    (viewFiles (runOps (init cfg []) ops)).flatten = written ops := by
-  refine multi_run_stream_B_partial cfg ⟨hn, r, hrot, Or.inr hnm⟩ ops hm ?_
-  intro _ pre b now fl post hops _ happ'
-  exfalso
-  have hp := hm.1
-  rw [hrot] at hp
-  have := run_no_append_tD hnm (hn r hrot) pre (init cfg []) hrot happ
-    (fun o ho => hp o (by rw [hops]; simp [ho])) (fun o ho => hna o (by rw [hops]; simp [ho]))
-  rw [this] at happ'
-  cases happ'
+    (_hna : ∀ o ∈ ops, ∀ c, o.1 = .restart c → c.append = false) :
+    (viewFiles (runOps (init cfg []) ops)).flatten = written ops :=
+  multi_run_stream_B cfg ⟨hn, r, hrot, Or.inr hnm⟩ ops hm
 
-/-! ### the counterexample for `timestampsDirect` with `append` (finding D22) -/
+/-! ### the former counterexample for `timestampsDirect` with `append` (finding D22, repaired) -/
 
 def wCfg : Cfg :=
   { rot := some ⟨none, none, .timestampsDirect, none⟩, append := true, cap := none,
@@ -1348,18 +1477,23 @@ theorem wOps_multiRun : MultiRun wCfg.rot wOps := by
     | exact ⟨Or.inl rfl, rfl⟩
     | exact ⟨Or.inr ⟨_, rfl, rfl⟩, rfl⟩
 
-/-- the new run re-opens the base file `ts 5 none` although `ts 5 (some 0)` and
-    `ts 5 (some 1)` are newer: record `[4]` lands before `[2]` and `[3]` -/
-theorem tsd_append_restart_violation_witness :
+/-- This history was the witness of finding D22 (`C06-tsd-append-after-restart-files`), the defect
+    repaired by the `fix:` commit: before the repair the new run re-opened the base file
+    `ts 5 none` although `ts 5 (some 0)` and `ts 5 (some 1)` are newer, and the stream read
+    `[1, 4, 2, 3]`. Now the new run continues the newest file `ts 5 (some 1)`: the stream is
+    complete and in order. -/
+theorem tsd_append_restart_former_witness :
     CfgMB wCfg ∧ MultiRun wCfg.rot wOps ∧
-    (viewFiles (runOps (init wCfg []) wOps)).flatten = [1, 4, 2, 3] ∧ written wOps = [1, 2, 3, 4] ∧
-    (viewFiles (runOps (init wCfg []) wOps)).flatten ≠ written wOps :=
+    viewFiles (runOps (init wCfg []) wOps) = [[1], [2], [3, 4]] ∧ written wOps = [1, 2, 3, 4] ∧
+    (viewFiles (runOps (init wCfg []) wOps)).flatten = written wOps :=
   ⟨wCfg_ok, wOps_multiRun, by decide, by decide, by decide⟩
 
-theorem multi_run_stream_B_full_statement_false : ¬ multi_run_stream_B_full_statement :=
-  fun h => tsd_append_restart_violation_witness.2.2.2.2 (h wCfg wCfg_ok wOps wOps_multiRun)
+/-- … as `multi_run_stream_B` says -/
+example : (viewFiles (runOps (init wCfg []) wOps)).flatten = written wOps :=
+  multi_run_stream_B wCfg wCfg_ok wOps wOps_multiRun
 
-/-- the guard is violated by the witness, as it must be -/
+/-- the former guard does not hold on this history (the newest stamp has `.restart-N` siblings
+    when the appending run initialises): it is no longer necessary -/
 example : guardB (init wCfg []) wOps = false := by decide
 
 /-! ### non-vacuity -/
